@@ -97,7 +97,7 @@ def r1_r5_reload(ctx):
 
 def r2_writers(ctx):
     n = 0
-    for key, body in ctx.P.bodies.items():
+    for key, body in ctx.P.scan():
         o = None
         for c in calls_norm(body, "RwLock::write"):
             if "std::sync::RwLock" not in (c.callee or ""):
@@ -142,7 +142,7 @@ def r3_snapshot(ctx):
 
 def r4_pair_validation(ctx):
     body = None
-    for k, b in ctx.P.bodies.items():
+    for k, b in ctx.P.scan():
         if k.startswith("util::tls::create_server_config_from_files") and "{closure" not in k:
             body = b
     if body is None:
